@@ -315,8 +315,8 @@ Section Generic.
   Definition cdec (init : list mrec) (last : mrec) : canvas :=
     fst (dstep W H (dfold W H s0 (frames_of init)) (frame_of false last)).
 
-  Record invw (ins : list (img * Z)) (st : est)
-              (init : list mrec) (last : mrec) (im : img) (ins' : list (img * Z)) (d : Z) : Prop := {
+  Record invw (ins : show) (st : est)
+              (init : list mrec) (last : mrec) (im : img) (ins' : show) (d : Z) : Prop := {
     i_W : e_W st = W;
     i_H : e_H st = H;
     i_op : e_opts st = op;
@@ -327,16 +327,17 @@ Section Generic.
     i_prect : forall x y, 0 <= x < W -> 0 <= y < H ->
                 in_rect (e_prect st) x y = in_rect (rec_rect last) x y;
     i_prev : e_prev st = Some (pad W H im);
-    i_ins : ins = ins' ++ [(im, d)];
+    i_ins : ins = ins' ++ [(pad W H im, d)];
     i_im : wf_img im;
     i_dec : psim pi W H (cdec init last) (pad W H im);
     i_show : push (collapse_rev_by pi (played init)) (map pi (cdec init last), m_dur last)
-             = collapse_rev_by pi (inputs_of W H ins);
+             = collapse_rev_by pi ins;
     i_fcount : e_fcount st = Z.of_nat (length (init ++ [last]));
-    i_first : init = [] -> m_x last = 0 /\ m_y last = 0 /\ m_blend_none last = true
+    i_first : init = [] -> m_x last = 0 /\ m_y last = 0 /\ m_blend_none last = true /\
+                           iw (m_img last) = W /\ ih (m_img last) = H
   }.
 
-  Definition inv (ins : list (img * Z)) (st : est) : Prop :=
+  Definition inv (ins : show) (st : est) : Prop :=
     exists init last im ins' d, invw ins st init last im ins' d.
 
   Lemma cdec_length init last : length (cdec init last) = Z.to_nat (W * H).
@@ -452,7 +453,7 @@ Section Generic.
     e_fcount st' = e_fcount st + 1 ->
     psim pi W H (composite W H (if b then fill W H (cdec init last) (rec_rect last) else cdec init last)
                            (frame_of false new)) (pad W H im2) ->
-    inv (ins ++ [(im2, dur)]) st'.
+    inv (ins ++ [(pad W H im2, dur)]) st'.
   Proof.
     intros Hi HW' HH' Hop' Hrecs Hpidx Hdisp Hok Hdur Hprect Hprev Him2 Hfc Hsim.
     destruct Hi.
@@ -469,8 +470,6 @@ Section Generic.
     - rewrite Hcd. exact Hsim.
     - rewrite played_snoc, collapse_rev_by_snoc. rewrite cdec_with_disp.
       change (m_dur (with_disp b last)) with (m_dur last). rewrite i_show0.
-      unfold inputs_of at 2. rewrite map_app. cbn [map fst snd].
-      change (map (fun f => (pad W H (fst f), snd f)) ins) with (inputs_of W H ins).
       rewrite collapse_rev_by_snoc. rewrite Hdur. f_equal. f_equal.
       apply (psim_map pi W H); try lia.
       + apply cdec_length.
@@ -487,7 +486,7 @@ Section Generic.
     invw ins st init last im ins' d ->
     e_W st1 = W -> e_H st1 = H -> e_opts st1 = op -> e_recs st1 = e_recs st -> e_fcount st1 = e_fcount st ->
     wf_img im2 -> 0 <= dur <= max_duration ->
-    inv (ins ++ [(im2, dur)]) (encode_keyframe st1 (pad W H im2) dur alt).
+    inv (ins ++ [(pad W H im2, dur)]) (encode_keyframe st1 (pad W H im2) dur alt).
   Proof.
     intros Hi HW1 HH1 Hop1 Hrecs1 Hfc1 Him2 Hdur.
     pose proof Hi as Hi'. destruct Hi'.
@@ -509,7 +508,7 @@ Section Generic.
   Lemma step_first st0 im2 dur alt :
     e_W st0 = W -> e_H st0 = H -> e_opts st0 = op -> e_recs st0 = [] -> e_fcount st0 = 0 ->
     wf_img im2 -> 0 <= dur <= max_duration ->
-    inv [(im2, dur)] (encode_keyframe st0 (pad W H im2) dur alt).
+    inv [(pad W H im2, dur)] (encode_keyframe st0 (pad W H im2) dur alt).
   Proof.
     intros HW0 HH0 Hop0 Hrecs0 Hfc0 Him2 Hdur.
     set (k := key_rec (pad W H im2) (codec_lossy op alt) dur).
@@ -523,7 +522,7 @@ Section Generic.
       rewrite ?HW0, ?HH0, ?Hop0, ?Hrecs0, ?Hfc0; try reflexivity; try assumption.
     - constructor; [exact Hk|constructor].
     - intros x y Hx Hy. apply in_rect_key; assumption.
-    - unfold played, frames_of, spec_run, collapse_rev_by, proj_show, inputs_of.
+    - unfold played, frames_of, spec_run, collapse_rev_by, proj_show.
       cbn [map spec_go combine fold_left push fst snd app].
       unfold k at 2, key_rec; cbn [m_dur]. rewrite clamp_dur_id by exact Hdur.
       f_equal. f_equal. apply (psim_map pi W H); try lia; [apply cdec_length|apply pad_length|exact Hs].
@@ -580,7 +579,7 @@ Section Generic.
     e_W st1 = W -> e_H st1 = H -> e_opts st1 = op -> e_recs st1 = e_recs st ->
     e_fcount st1 = e_fcount st -> e_pidx st1 = e_pidx st -> e_prect st1 = e_prect st ->
     wf_img im2 -> 0 <= dur <= max_duration ->
-    inv (ins ++ [(im2, dur)]) (encode_sub_frame fx st1 (pad W H im) (pad W H im2) dur o).
+    inv (ins ++ [(pad W H im2, dur)]) (encode_sub_frame fx st1 (pad W H im) (pad W H im2) dur o).
   Proof.
     intros Hi HW1 HH1 Hop1 Hrecs1 Hfc1 Hpidx1 Hprect1 Him2 Hdur.
     pose proof Hi as Hi'. destruct Hi'.
@@ -636,12 +635,11 @@ Section Generic.
   (* a repeated picture: duration extension and the overflow filler    *)
 
   Lemma show_dup A c d0 dur ins im2 :
-    push A (c, d0) = collapse_rev_by pi (inputs_of W H ins) ->
+    push A (c, d0) = collapse_rev_by pi ins ->
     map pi (pad W H im2) = c ->
-    push A (c, d0 + dur) = collapse_rev_by pi (inputs_of W H (ins ++ [(im2, dur)])).
+    push A (c, d0 + dur) = collapse_rev_by pi (ins ++ [(pad W H im2, dur)]).
   Proof.
-    intros Hs Hc. unfold inputs_of. rewrite map_app. cbn [map fst snd].
-    change (map (fun f => (pad W H (fst f), snd f)) ins) with (inputs_of W H ins).
+    intros Hs Hc.
     rewrite collapse_rev_by_snoc, <- Hs, push_add, Hc.
     destruct (push_head A c d0) as (d1 & t & E). rewrite E. rewrite push_same_head. reflexivity.
   Qed.
@@ -684,7 +682,7 @@ Section Generic.
   Lemma step_dup ins st init last im ins' d im2 dur o :
     invw ins st init last im ins' d ->
     wf_img im2 -> 0 <= dur <= max_duration -> pad W H im2 = pad W H im ->
-    inv (ins ++ [(im2, dur)]) (increase_prev_duration fx st dur o).
+    inv (ins ++ [(pad W H im2, dur)]) (increase_prev_duration fx st dur o).
   Proof.
     intros Hi Him2 Hdur Hpad. pose proof Hi as Hi'. destruct Hi'.
     pose proof (proj1 (Forall_snoc _ _ _) i_ok0) as [Hokinit Hoklast].
@@ -747,7 +745,8 @@ Section Generic.
     destruct Hi. constructor; assumption.
   Qed.
 
-  Lemma step_add oracle ins st f : inv ins st -> wf_input f -> inv (ins ++ [f]) (add_frame fx oracle st f).
+  Lemma step_add oracle ins st f : inv ins st -> wf_input f ->
+    inv (ins ++ [(pad W H (fst f), snd f)]) (add_frame fx oracle st f).
   Proof.
     intros (init & last & im & ins' & d & Hi) Hf. destruct f as [im2 dur]. destruct Hf as [Him2 Hdur].
     cbn [fst snd] in Him2, Hdur. pose proof Hi as Hi'. destruct Hi'.
@@ -761,12 +760,14 @@ Section Generic.
   Qed.
 
   Lemma run_inv oracle rest : forall ins st, inv ins st -> Forall wf_input rest ->
-    inv (ins ++ rest) (run_frames fx oracle st rest).
+    inv (ins ++ inputs_of W H rest) (run_frames fx oracle st rest).
   Proof.
     induction rest as [|f rest IH]; intros ins st Hi Hwf.
     - rewrite app_nil_r. exact Hi.
     - inversion Hwf as [|? ? Hf Hrest]; subst. cbn [run_frames fold_left].
-      replace (ins ++ f :: rest) with ((ins ++ [f]) ++ rest) by (rewrite <- app_assoc; reflexivity).
+      cbn [inputs_of map].
+      replace (ins ++ (pad W H (fst f), snd f) :: map (fun f0 => (pad W H (fst f0), snd f0)) rest)
+        with ((ins ++ [(pad W H (fst f), snd f)]) ++ inputs_of W H rest) by (rewrite <- app_assoc; reflexivity).
       apply IH; [|exact Hrest]. apply step_add; assumption.
   Qed.
 
@@ -774,12 +775,13 @@ Section Generic.
     e_W st0 = W -> e_H st0 = H -> e_opts st0 = op -> e_recs st0 = [] -> e_fcount st0 = 0 ->
     e_prev st0 = None ->
     frames <> [] -> Forall wf_input frames ->
-    inv frames (run_frames fx oracle st0 frames).
+    inv (inputs_of W H frames) (run_frames fx oracle st0 frames).
   Proof.
     intros HW0 HH0 Hop0 Hrecs0 Hfc0 Hprev0 Hne Hwf.
     destruct frames as [|[im2 dur] rest]; [contradiction|].
     inversion Hwf as [|? ? Hf Hrest]; subst. destruct Hf as [Him2 Hdur]. cbn [fst snd] in Him2, Hdur.
-    cbn [run_frames fold_left]. change ((im2, dur) :: rest) with ([(im2, dur)] ++ rest).
+    cbn [run_frames fold_left].
+    change (inputs_of W H ((im2, dur) :: rest)) with ([(pad W H im2, dur)] ++ inputs_of W H rest).
     apply run_inv; [|exact Hrest].
     unfold add_frame. apply inv_calls. rewrite Hprev0, HW0, HH0. apply step_first; assumption.
   Qed.
@@ -821,8 +823,8 @@ Section Generic.
     length prevc = Z.to_nat (W * H) ->
     psim pi W H (composite W H (blank W H) (frame_of via k)) prevc ->
     psim pi W H (cdec [] last) prevc ->
-    push [] (map pi (cdec [] last), m_dur last) = collapse_rev_by pi (inputs_of W H frames) ->
-    forall loop, same_show_by pi W H loop out (playback rt_ll rt_ly fx out) (inputs_of W H frames).
+    push [] (map pi (cdec [] last), m_dur last) = collapse_rev_by pi frames ->
+    forall loop, same_show_by pi W H loop out (playback rt_ll rt_ly fx out) frames.
   Proof.
     intros HoW HoH Hrecs Hvia Hlen Hs Hd Hshow loop.
     assert (Hpb : playback rt_ll rt_ly fx out
@@ -832,7 +834,7 @@ Section Generic.
     { transitivity (map pi prevc).
       - apply (psim_map pi W H); [lia|lia|apply tab_length|exact Hlen|exact Hs].
       - symmetry. apply (psim_map pi W H); [lia|lia|apply cdec_length|exact Hlen|exact Hd]. }
-    assert (HI : collapse_by pi (inputs_of W H frames) = [(map pi (cdec [] last), m_dur last)]).
+    assert (HI : collapse_by pi frames = [(map pi (cdec [] last), m_dur last)]).
     { unfold collapse_by. rewrite <- Hshow. reflexivity. }
     constructor.
     - split; assumption.
@@ -841,24 +843,59 @@ Section Generic.
     - rewrite HI. cbn [length]. lia.
   Qed.
 
+  Hypothesis HWmax : W <= max_canvas_dimension.
+  Hypothesis HHmax : H <= max_canvas_dimension.
+
+  Lemma rec_ok_valid animated r : rec_ok r -> (animated = true \/ (m_x r = 0 /\ m_y r = 0)) ->
+    rec_valid W H animated r = true.
+  Proof.
+    intros (Hwf & _ & Hx & Hy & _ & _ & Hxw & Hyh & _) Ha. destruct Hwf as (Hiw & Hih & _).
+    unfold rec_valid, max_position_off. unfold max_canvas_dimension in HWmax, HHmax.
+    assert (m_x r / 2 < 16777216) by (apply Z.div_lt_upper_bound; lia).
+    assert (m_y r / 2 < 16777216) by (apply Z.div_lt_upper_bound; lia).
+    destruct Ha as [->|[Hx0 Hy0]]; [|rewrite Hx0, Hy0 in *]; cbn [orb]; try rewrite orb_true_r; lia.
+  Qed.
+
+  Lemma valid_all recs : Forall rec_ok recs ->
+    (mux_animated recs = false -> Forall (fun r => m_x r = 0 /\ m_y r = 0) recs) ->
+    forallb (rec_valid W H (mux_animated recs)) recs = true.
+  Proof.
+    intros Hok Hna. apply forallb_forall. intros r Hr. rewrite Forall_forall in Hok.
+    apply rec_ok_valid; [apply Hok; exact Hr|].
+    destruct (mux_animated recs) eqn:Ha; [left; reflexivity|right].
+    specialize (Hna eq_refl). rewrite Forall_forall in Hna. apply Hna. exact Hr.
+  Qed.
+
   (* [close] on a state whose last muxer frame may carry a dispose flag the encoder
      set just before Muxer.AddFrame refused the next frame (flag [b]). *)
   Lemma close_sound has_meta simple st ins out init last im ins' d b :
     invw ins (set_recs st (init ++ [last])) init last im ins' d ->
     e_recs st = init ++ [with_disp b last] ->
     close has_meta simple st = Some out ->
-    same_show_by pi W H (eo_loop op) out (playback rt_ll rt_ly fx out) (inputs_of W H ins).
+    same_show_by pi W H (eo_loop op) out (playback rt_ll rt_ly fx out) ins.
   Proof.
     intros Hi Hrecs Hclose.
     destruct Hi. cbn [set_recs e_W e_H e_opts e_recs e_prev e_fcount e_pidx e_prect] in *.
     pose proof (proj1 (Forall_snoc _ _ _) i_ok0) as [Hokinit Hoklast].
     assert (Hlp : length (pad W H im) = Z.to_nat (W * H)) by apply pad_length.
+    assert (Han' : mux_animated (e_recs st) = mux_animated (init ++ [last])).
+    { rewrite Hrecs. unfold mux_animated. rewrite !app_length, !existsb_app. reflexivity. }
+    assert (Hinit0 : mux_animated (e_recs st) = false -> init = []).
+    { intros Han. rewrite Han in Han'. destruct init as [|a init']; [reflexivity|]. exfalso.
+      symmetry in Han'. unfold mux_animated in Han'. rewrite app_length in Han'.
+      cbn [length] in Han'. apply orb_false_iff in Han' as [Han' _]. lia. }
+    assert (Hval : forallb (rec_valid W H (mux_animated (e_recs st))) (e_recs st) = true).
+    { apply valid_all.
+      - rewrite Hrecs. apply Forall_snoc. split; [exact Hokinit|exact Hoklast].
+      - intros Han. rewrite (Hinit0 Han) in *. rewrite Hrecs. cbn [app].
+        destruct (i_first0 eq_refl) as (Hx0 & Hy0 & _). constructor; [split; assumption|constructor]. }
     unfold close in Hclose. rewrite i_prev0, i_W0, i_H0, i_op0, i_fcount0 in Hclose.
     assert (Hr0 : exists r0 tl, e_recs st = r0 :: tl /\ (init = [] -> r0 = with_disp b last)).
     { rewrite Hrecs. destruct init as [|a init']; cbn [app].
       - exists (with_disp b last), []. split; [reflexivity|auto].
       - exists a, (init' ++ [with_disp b last]). split; [reflexivity|]. intros Habs; discriminate. }
-    destruct Hr0 as (r0 & tl & Hr0 & Hr0l). rewrite Hr0 in Hclose.
+    destruct Hr0 as (r0 & tl & Hr0 & Hr0l). rewrite Hr0 in Hclose. rewrite <- Hr0 in Hclose.
+    rewrite Hval in Hclose. cbn [negb] in Hclose. cbv zeta in Hclose.
     destruct ((Z.of_nat (length (init ++ [last])) =? 1) && negb has_meta && simple) eqn:Hstill.
     - (* the single-frame still written by SimpleEncodeFunc *)
       apply andb_true_iff in Hstill as [Hone _]. apply andb_true_iff in Hone as [Hone _].
@@ -873,15 +910,12 @@ Section Generic.
       apply (still_sound true (key_rec (pad W H im) lossy 0) (pad W H im)); try reflexivity.
       + apply key_rec_ok; [apply wf_pad; exact i_im0|exact Hl|unfold max_duration; lia].
       + apply key_sound; [apply wf_pad; exact i_im0|exact Hl|unfold max_duration; lia].
-    - rewrite <- Hr0 in Hclose.
-      assert (Han' : mux_animated (e_recs st) = mux_animated (init ++ [last])).
-      { rewrite Hrecs. unfold mux_animated. rewrite !app_length, !existsb_app. reflexivity. }
-      destruct (mux_animated (e_recs st)) eqn:Han.
+    - destruct (mux_animated (e_recs st)) eqn:Han.
       + (* an animation *)
         injection Hclose as <-.
         assert (Hpb : playback rt_ll rt_ly fx (mkout false false W H (eo_loop op) (e_recs st))
                       = played (e_recs st)) by reflexivity.
-        assert (Hcol : collapse_by pi (played (e_recs st)) = collapse_by pi (inputs_of W H ins)).
+        assert (Hcol : collapse_by pi (played (e_recs st)) = collapse_by pi ins).
         { unfold collapse_by. f_equal. rewrite Hrecs, played_snoc, collapse_rev_by_snoc.
           rewrite cdec_with_disp. exact i_show0. }
         constructor; cbn [out_W out_H out_loop out_still].
@@ -890,16 +924,14 @@ Section Generic.
         * intros _. rewrite Hpb. repeat split. exact Hcol.
       + (* one frame of duration 0: the muxer writes a simple file *)
         injection Hclose as <-.
-        assert (Hinit : init = []).
-        { destruct init as [|a init']; [reflexivity|]. exfalso.
-          symmetry in Han'. unfold mux_animated in Han'. rewrite app_length in Han'.
-          cbn [length] in Han'. apply orb_false_iff in Han' as [Han' _]. lia. }
-        subst init. specialize (Hr0l eq_refl). subst r0.
-        destruct (i_first0 eq_refl) as (Hx0 & Hy0 & _).
+        pose proof (Hinit0 eq_refl) as Hinit. subst init. specialize (Hr0l eq_refl). subst r0.
+        destruct (i_first0 eq_refl) as (Hx0 & Hy0 & _ & Hiw & Hih).
         eapply (single_show false (mkmrec 0 0 (m_img last) (m_lossy last) false false 0) _ (pad W H im) last);
           try reflexivity; try assumption.
-        apply (still_sound false last (pad W H im) Hoklast Hx0 Hy0).
-        rewrite (with_disp_false last i_disp0). exact i_dec0.
+        * cbn [out_W with_disp m_img]. rewrite Hiw. destruct has_meta; reflexivity.
+        * cbn [out_H with_disp m_img]. rewrite Hih. destruct has_meta; reflexivity.
+        * apply (still_sound false last (pad W H im) Hoklast Hx0 Hy0).
+          rewrite (with_disp_false last i_disp0). exact i_dec0.
   Qed.
 
   Lemma set_recs_same st : set_recs st (e_recs st) = st.
@@ -916,7 +948,7 @@ Section Generic.
     destruct (run_from_new oracle st0 frames HW0 HH0 Hop0 Hrecs0 Hfc0 Hprev0 Hne Hwf)
       as (init & last & im & ins' & d & Hi).
     pose proof Hi as Hi'. destruct Hi'.
-    apply (close_sound has_meta simple (run_frames fx oracle st0 frames) frames out init last im ins' d false); [| |exact Hclose].
+    apply (close_sound has_meta simple (run_frames fx oracle st0 frames) (inputs_of W H frames) out init last im ins' d false); [| |exact Hclose].
     - rewrite <- i_recs0, set_recs_same. exact Hi.
     - rewrite i_recs0, (with_disp_false last i_disp0). reflexivity.
   Qed.
@@ -929,7 +961,7 @@ Section Generic.
 
   (* the invariant up to the dispose flag the encoder may have set on the last muxer
      frame just before Muxer.AddFrame refused the next one (only when the muxer is full) *)
-  Definition einv (ins : list (img * Z)) (st : est) : Prop :=
+  Definition einv (ins : show) (st : est) : Prop :=
     exists init last im ins' d b,
       invw ins (set_recs st (init ++ [last])) init last im ins' d /\
       e_recs st = init ++ [with_disp b last] /\
@@ -988,7 +1020,7 @@ Section Generic.
     e_prev st2 = e_prev st -> e_fcount st2 = e_fcount st -> e_prect st2 = e_prect st ->
     e_pidx st2 = e_pidx st ->
     e_recs st2 = init ++ [with_dur (m_dur last + dur) last] ->
-    invw (ins ++ [(im2, dur)]) st2 init (with_dur (m_dur last + dur) last) im2 ins dur.
+    invw (ins ++ [(pad W H im2, dur)]) st2 init (with_dur (m_dur last + dur) last) im2 ins dur.
   Proof.
     intros Hi Him2 Hdur Hpad Hlt E1 E2 E3 E5 E6 E7 E8 Hr. destruct Hi.
     pose proof (proj1 (Forall_snoc _ _ _) i_ok0) as [Hokinit Hoklast].
@@ -1008,13 +1040,13 @@ Section Generic.
     e_W st = W /\ e_H st = H /\ e_opts st = op /\ e_recs st = [] /\ e_fcount st = 0 /\
     e_prev st = None.
 
-  Definition einv0 (acc : list (img * Z)) (st : est) : Prop :=
+  Definition einv0 (acc : show) (st : est) : Prop :=
     (acc = [] /\ pre st) \/ einv acc st.
 
   Lemma step_add_e oracle fails acc st f st2 ok :
     einv0 acc st -> wf_input f ->
     add_frame_e fx true maxf oracle fails st f = (st2, ok) ->
-    einv0 (if ok then acc ++ [f] else acc) st2.
+    einv0 (if ok then acc ++ [(pad W H (fst f), snd f)] else acc) st2.
   Proof.
     intros HP Hf Hadd. destruct f as [im2 dur]. pose proof Hf as [Him2 Hdur].
     cbn [fst snd] in Him2, Hdur. unfold add_frame_e in Hadd.
@@ -1032,8 +1064,8 @@ Section Generic.
         in i_W0, i_H0, i_op0, i_recs0, i_pidx0, i_prect0, i_prev0, i_fcount0.
       (* a successful call on a state without the stray flag *)
       assert (Hok : mux_full maxf st = false ->
-                    einv (acc ++ [(im2, dur)]) (add_frame fx oracle' st (im2, dur))).
-      { intros Hnf. apply inv_einv. apply step_add; [|exact Hf].
+                    einv (acc ++ [(pad W H im2, dur)]) (add_frame fx oracle' st (im2, dur))).
+      { intros Hnf. apply inv_einv. apply (step_add oracle' acc st (im2, dur)); [|exact Hf].
         exists init, last, im, ins', d.
         destruct b; [rewrite (Hb eq_refl) in Hnf; discriminate|].
         rewrite (with_disp_false last i_disp0) in Hrecs. rewrite <- Hrecs, set_recs_same in Hi. exact Hi. }
@@ -1104,7 +1136,7 @@ Section Generic.
   Lemma run_e_inv oracle fails fs : forall st acc0 stf acc,
     einv0 acc0 st -> Forall wf_input fs ->
     run_e fx true maxf oracle fails st fs = (stf, acc) ->
-    einv0 (acc0 ++ acc) stf.
+    einv0 (acc0 ++ inputs_of W H acc) stf.
   Proof.
     induction fs as [|f rest IH]; intros st acc0 stf acc HP Hwf Hrun.
     - cbn in Hrun. injection Hrun as <- <-. rewrite app_nil_r. exact HP.
@@ -1130,7 +1162,7 @@ Section Generic.
     pose proof (run_e_inv oracle fails frames st0 [] stf acc HP0 Hwf Hrun) as HP. cbn [app] in HP.
     destruct HP as [[_ Hpre]|(init & last & im & ins' & d & b & Hi & Hrecs & _)].
     - destruct Hpre as (_ & _ & _ & Hr & _). unfold close in Hclose. rewrite Hr in Hclose. discriminate.
-    - exact (close_sound has_meta simple stf acc out init last im ins' d b Hi Hrecs Hclose).
+    - exact (close_sound has_meta simple stf (inputs_of W H acc) out init last im ins' d b Hi Hrecs Hclose).
   Qed.
 
   (* nothing is written when every call was refused *)
@@ -1146,5 +1178,307 @@ Section Generic.
     destruct HP as [[_ Hpre]|(init & last & im & ins' & d & b & Hi & _)].
     - destruct Hpre as (_ & _ & _ & Hr & _). unfold close. rewrite Hr. reflexivity.
     - destruct Hi. destruct ins'; discriminate.
+  Qed.
+
+  (* ---------------------------------------------------------------- *)
+  (* Pre-encoded frames (AddRawFrame) mixed with AddFrame                *)
+
+  Definition eff (p : option (rect * bool)) : option rect :=
+    match p with Some (r, true) => Some r | _ => None end.
+
+  Definition dispose_of (s : dstate0) : canvas :=
+    match snd s with Some (r, true) => fill W H (fst s) r | _ => fst s end.
+
+  (* decoder state vs reference state *)
+  Definition dagree (ds rs : dstate0) : Prop :=
+    psim pi W H (fst ds) (fst rs) /\ eff (snd ds) = eff (snd rs).
+
+  Lemma dispose_psim ds rs : dagree ds rs -> psim pi W H (dispose_of ds) (dispose_of rs).
+  Proof.
+    intros [Hs He]. unfold dispose_of.
+    destruct (snd ds) as [[r [|]]|], (snd rs) as [[r' [|]]|]; cbn [eff] in He;
+      try discriminate; try exact Hs.
+    injection He as <-. intros x y Hx Hy. rewrite !cget_fill by assumption.
+    destruct (in_rect r x y); [reflexivity|apply Hs; assumption].
+  Qed.
+
+  Lemma composite_psim via r c c' : rec_ok r -> psim pi W H c c' ->
+    psim pi W H (composite W H c (frame_of via r)) (composite W H c' (id_frame r)).
+  Proof.
+    intros Hok Hs x y Hx Hy. unfold composite. rewrite !cget_tab by lia.
+    rewrite (true_rect_frame_of via r Hok).
+    change (true_rect (id_frame r)) with (rec_rect r).
+    destruct (in_rect (rec_rect r) x y) eqn:Hin; [|apply Hs; assumption].
+    pose proof Hok as (Hwf & Hl & Hx0 & Hy0 & Hxe & Hye & _).
+    assert (Efx : Canvas.fx (frame_of via r) = m_x r)
+      by (unfold frame_of, AnimEncModel.frame_of; cbn [Canvas.fx]; lia).
+    assert (Efy : Canvas.fy (frame_of via r) = m_y r)
+      by (unfold frame_of, AnimEncModel.frame_of; cbn [Canvas.fy]; lia).
+    rewrite Efx, Efy.
+    pose proof (fget_frame_of via r x y Hok Hin) as Hf.
+    change (fget (id_frame r) (x - Canvas.fx (id_frame r)) (y - Canvas.fy (id_frame r)))
+      with (nth (Z.to_nat ((y - m_y r) * iw (m_img r) + (x - m_x r))) (ipix (m_img r)) px0).
+    replace (fblend_none (frame_of via r)) with (m_blend_none r) by reflexivity.
+    change (fblend_none (id_frame r)) with (m_blend_none r).
+    destruct (m_blend_none r); [exact Hf|].
+    apply pi_blend; [exact Hf|apply Hs; assumption].
+  Qed.
+
+  Definition ucore (R : show) (rs : dstate0) (recs : list mrec) : Prop :=
+    Forall rec_ok recs /\
+    dagree (dfold W H s0 (frames_of recs)) rs /\
+    collapse_rev_by pi (played recs) = collapse_rev_by pi R.
+
+  Lemma ucore_raw R rs recs r : ucore R rs recs -> rec_ok r ->
+    ucore (R ++ [(fst (rstep W H rs (ORaw r)), m_dur r)]) (rstep W H rs (ORaw r)) (recs ++ [r]).
+  Proof.
+    intros (Hok & Hag & Hshow) Hr.
+    assert (Hc : psim pi W H (cdec recs r) (fst (rstep W H rs (ORaw r)))).
+    { unfold cdec, dstep, rstep; cbn [fst snd].
+      apply composite_psim; [exact Hr|]. exact (dispose_psim _ _ Hag). }
+    split; [apply Forall_snoc; split; assumption|]. split.
+    - unfold frames_of. rewrite map_app. cbn [map]. rewrite dfold_snoc. split.
+      + exact Hc.
+      + unfold dstep, rstep; cbn [snd eff]. rewrite (true_rect_frame_of false r Hr).
+        change (true_rect (id_frame r)) with (rec_rect r).
+        change (fdispose_bg (frame_of false r)) with (m_dispose_bg r). reflexivity.
+    - rewrite played_snoc, !collapse_rev_by_snoc, Hshow. f_equal. f_equal.
+      apply (psim_map pi W H); [lia|lia|apply cdec_length| |exact Hc].
+      unfold rstep; cbn [fst]. unfold composite. apply tab_length.
+  Qed.
+
+  Lemma inv_ucore ins st init last im ins' d rs :
+    invw ins st init last im ins' d -> fst rs = pad W H im -> eff (snd rs) = None ->
+    ucore ins rs (init ++ [last]).
+  Proof.
+    intros Hi Hf He. destruct Hi.
+    pose proof (proj2 (proj1 (Forall_snoc _ _ _) i_ok0)) as Hoklast.
+    split; [exact i_ok0|]. split.
+    - rewrite <- (with_disp_false last i_disp0) at 1. rewrite (dfold_last init last false Hoklast).
+      split; cbn [fst snd eff]; [rewrite Hf; exact i_dec0|symmetry; exact He].
+    - rewrite played_snoc, collapse_rev_by_snoc. exact i_show0.
+  Qed.
+
+  Record uinv (R : show) (rs : dstate0) (st : est) : Prop := {
+    u_W : e_W st = W;
+    u_H : e_H st = H;
+    u_op : e_opts st = op;
+    u_prev : e_prev st = None;
+    u_core : ucore R rs (e_recs st);
+    u_fcount : e_fcount st = Z.of_nat (length (e_recs st))
+  }.
+
+  (* the next AddFrame after pre-encoded frames (or the very first one): a key frame *)
+  Lemma step_key_u R rs st im2 dur alt :
+    uinv R rs st -> wf_img im2 -> 0 <= dur <= max_duration ->
+    inv (R ++ [(pad W H im2, dur)]) (encode_keyframe st (pad W H im2) dur alt).
+  Proof.
+    intros Hu Him2 Hdur. destruct Hu. destruct u_core0 as (Hok & Hag & Hshow).
+    set (k := key_rec (pad W H im2) (codec_lossy op alt) dur).
+    assert (Hk : rec_ok k)
+      by (apply key_rec_ok; [apply wf_pad; exact Him2|apply codec_lossy_fine|exact Hdur]).
+    assert (Hs : psim pi W H (cdec (e_recs st) k) (pad W H im2)).
+    { unfold cdec, dstep; cbn [fst snd].
+      apply key_sound; [apply wf_pad; exact Him2|apply codec_lossy_fine|exact Hdur]. }
+    exists (e_recs st), k, im2, R, dur.
+    constructor; unfold encode_keyframe; cbn [e_W e_H e_opts e_recs e_pidx e_prect e_prev e_fcount];
+      rewrite ?u_W0, ?u_H0, ?u_op0; try reflexivity; try assumption.
+    - unfold mux_add. rewrite last_idx_last. reflexivity.
+    - apply Forall_snoc. split; assumption.
+    - intros x y Hx Hy. apply in_rect_key; assumption.
+    - rewrite Hshow, collapse_rev_by_snoc. unfold k at 2, key_rec; cbn [m_dur].
+      rewrite clamp_dur_id by exact Hdur. f_equal. f_equal.
+      apply (psim_map pi W H); try lia; [apply cdec_length|apply pad_length|exact Hs].
+    - rewrite u_fcount0. unfold mux_add. rewrite !app_length. cbn [length]. lia.
+    - intros _. repeat split.
+  Qed.
+
+  Lemma raw_norm r : rec_ok r ->
+    mkmrec (m_x r) (m_y r) (m_img r) (m_lossy r) (m_blend_none r) (m_dispose_bg r) (clamp_dur (m_dur r)) = r.
+  Proof.
+    intros (_ & _ & _ & _ & _ & _ & _ & _ & Hd). rewrite clamp_dur_id by exact Hd.
+    destruct r; reflexivity.
+  Qed.
+
+  (* the reference show, snoc-wise *)
+  Lemma ref_show_snoc ops : forall s o,
+    ref_show W H s (ops ++ [o]) = ref_show W H s ops ++ [(fst (rstep W H (rfold W H s ops) o), op_dur o)].
+  Proof.
+    induction ops as [|a ops IH]; intros s o; cbn [app ref_show rfold fold_left]; [reflexivity|].
+    rewrite IH. reflexivity.
+  Qed.
+
+  Lemma rfold_snoc s ops o : rfold W H s (ops ++ [o]) = rstep W H (rfold W H s ops) o.
+  Proof. unfold rfold. rewrite fold_left_app. reflexivity. Qed.
+
+  Lemma ref_last s ops R' c d : ref_show W H s ops = R' ++ [(c, d)] -> fst (rfold W H s ops) = c.
+  Proof.
+    intros HR. destruct (exists_last (l := ops)) as (ops' & o & ->).
+    - intros ->. cbn in HR. destruct R'; discriminate.
+    - rewrite ref_show_snoc in HR. apply app_inj_tail in HR as [_ HR]. injection HR as <- _.
+      rewrite rfold_snoc. reflexivity.
+  Qed.
+
+  Definition wf_op (o : AnimEncModel.op) : Prop :=
+    match o with OAdd f => wf_input f | ORaw r => rec_ok r end.
+
+  (* the invariant of a mixed history *)
+  Definition minv (ops : list AnimEncModel.op) (st : est) : Prop :=
+    let R := ref_show W H s0 ops in
+    let rs := rfold W H s0 ops in
+    (uinv R rs st /\ (e_recs st = [] -> ops = []) /\ (forall r0, e_recs st = [r0] -> ops = [ORaw r0])) \/
+    (einv R st /\ eff (snd rs) = None).
+
+  Lemma einv_nonempty st : einv [] st -> False.
+  Proof. intros (init & last & im & ins' & d & b & Hi & _). destruct Hi. destruct ins'; discriminate. Qed.
+
+  Lemma uinv_calls R rs st : uinv R rs st -> uinv R rs (set_calls st).
+  Proof. intros Hu. destruct Hu. constructor; assumption. Qed.
+
+  Lemma step_op_minv oracle fails ops st o st2 ok :
+    minv ops st -> wf_op o ->
+    step_op fx maxf oracle fails st o = (st2, ok) ->
+    minv (if ok then ops ++ [o] else ops) st2.
+  Proof.
+    intros HM Hwf Hstep. unfold minv in *. cbv zeta in *.
+    set (R := ref_show W H s0 ops) in *. set (rs := rfold W H s0 ops) in *.
+    destruct o as [[im2 dur]|r]; cbn [step_op wf_op] in *.
+    - (* AddFrame *)
+      destruct HM as [(Hu & He0 & He1)|[He Heff]].
+      + pose proof Hu as Hu'. destruct Hu'. destruct Hwf as [Him2 Hdur]. cbn [fst snd] in Him2, Hdur.
+        unfold add_frame_e in Hstep. rewrite u_prev0 in Hstep.
+        destruct (ef_a (fails (e_calls st)) || mux_full maxf st); injection Hstep as <- <-.
+        * left. split; [apply uinv_calls; exact Hu|]. split; assumption.
+        * right. rewrite ref_show_snoc, rfold_snoc. cbn [rstep fst snd op_dur eff]. fold R.
+          split; [|reflexivity]. apply inv_einv. unfold add_frame. apply inv_calls.
+          rewrite u_prev0, u_W0, u_H0. apply (step_key_u R rs); assumption.
+      + pose proof (step_add_e oracle fails R st (im2, dur) st2 ok (or_intror He) Hwf Hstep) as HP.
+        right. destruct ok.
+        * rewrite ref_show_snoc, rfold_snoc. cbn [rstep fst snd op_dur eff]. fold R.
+          split; [|reflexivity]. destruct HP as [[Habs _]|HP]; [destruct R; discriminate|exact HP].
+        * split; [|exact Heff]. destruct HP as [[Habs _]|HP]; [|exact HP].
+          fold R in He. rewrite Habs in He. destruct (einv_nonempty _ He).
+    - (* AddRawFrame *)
+      unfold add_raw_e in Hstep.
+      destruct (mux_full maxf st) eqn:Hfull; injection Hstep as <- <-.
+      + destruct HM as [(Hu & He0 & He1)|[He Heff]].
+        * left. split; [apply uinv_calls; exact Hu|]. split; assumption.
+        * right. split; [|exact Heff]. apply (einv_err R st); try reflexivity; [exact He|left; reflexivity].
+      + left. rewrite (raw_norm r Hwf). rewrite ref_show_snoc, rfold_snoc. fold R. fold rs. cbn [op_dur].
+        destruct HM as [(Hu & He0 & He1)|[He Heff]].
+        * destruct Hu. split; [|split].
+          -- constructor; cbn [set_calls e_W e_H e_opts e_recs e_prev e_fcount]; try assumption; try reflexivity.
+             ++ apply ucore_raw; assumption.
+             ++ rewrite u_fcount0, app_length. cbn [length]. lia.
+          -- cbn [set_calls e_recs]. intros Habs. destruct (e_recs st); discriminate.
+          -- cbn [set_calls e_recs]. intros r0 Hr0. destruct (e_recs st) as [|a [|a' tl]] eqn:Hrecs.
+             ++ cbn in Hr0. injection Hr0 as <-. rewrite (He0 eq_refl). reflexivity.
+             ++ discriminate.
+             ++ discriminate.
+        * destruct He as (init & last & im & ins' & d & b & Hi & Hrecs & Hb).
+          destruct b; [rewrite (Hb eq_refl) in Hfull; discriminate|].
+          pose proof Hi as Hi'. destruct Hi'.
+          cbn [set_recs e_W e_H e_opts e_recs e_prev e_fcount e_pidx e_prect]
+            in i_W0, i_H0, i_op0, i_fcount0.
+          rewrite (with_disp_false last i_disp0) in Hrecs.
+          assert (Hfst : fst rs = pad W H im) by (apply (ref_last s0 ops ins' _ d); exact i_ins0).
+          pose proof (inv_ucore _ _ _ _ _ _ _ rs Hi Hfst Heff) as Hcore.
+          split; [|split].
+          -- constructor; cbn [set_calls e_W e_H e_opts e_recs e_prev e_fcount]; try assumption; try reflexivity.
+             ++ rewrite Hrecs. apply ucore_raw; assumption.
+             ++ rewrite i_fcount0, Hrecs, !app_length. cbn [length]. lia.
+          -- cbn [set_calls e_recs]. rewrite Hrecs. intros Habs.
+             apply (f_equal (@length _)) in Habs. rewrite !app_length in Habs. cbn in Habs. lia.
+          -- cbn [set_calls e_recs]. rewrite Hrecs. intros r0 Hr0.
+             apply (f_equal (@length _)) in Hr0. rewrite !app_length in Hr0. cbn in Hr0. lia.
+  Qed.
+
+  Lemma run_ops_minv oracle fails ops : forall st acc0 stf acc,
+    minv acc0 st -> Forall wf_op ops ->
+    run_ops fx maxf oracle fails st ops = (stf, acc) ->
+    minv (acc0 ++ acc) stf.
+  Proof.
+    induction ops as [|o rest IH]; intros st acc0 stf acc HM Hwf Hrun.
+    - cbn in Hrun. injection Hrun as <- <-. rewrite app_nil_r. exact HM.
+    - inversion Hwf as [|? ? Ho Hrest]; subst. cbn [run_ops] in Hrun.
+      destruct (step_op fx maxf oracle fails st o) as [st1 ok] eqn:Hstep.
+      destruct (run_ops fx maxf oracle fails st1 rest) as [stf' acc'] eqn:Hrest'.
+      injection Hrun as <- <-.
+      pose proof (step_op_minv oracle fails acc0 st o st1 ok HM Ho Hstep) as HM1.
+      specialize (IH st1 _ stf' acc' HM1 Hrest Hrest').
+      destruct ok; [rewrite <- app_assoc in IH|]; exact IH.
+  Qed.
+
+  (* Close after pre-encoded frames *)
+  Lemma close_u has_meta simple st R rs out :
+    uinv R rs st ->
+    (forall r0, e_recs st = [r0] -> has_meta = true \/ 0 < m_dur r0 \/
+                                     (iw (m_img r0) = W /\ ih (m_img r0) = H)) ->
+    close has_meta simple st = Some out ->
+    same_show_by pi W H (eo_loop op) out (playback rt_ll rt_ly fx out) R.
+  Proof.
+    intros Hu Hcanvas Hclose. destruct Hu. destruct u_core0 as (Hok & Hag & Hshow).
+    unfold close in Hclose. destruct (e_recs st) as [|r0 tl] eqn:Hrecs; [discriminate|].
+    rewrite u_prev0, u_W0, u_H0, u_op0 in Hclose. cbv zeta in Hclose.
+    destruct (forallb (rec_valid W H (mux_animated (r0 :: tl))) (r0 :: tl)) eqn:Hval;
+      cbn [negb] in Hclose; [|discriminate].
+    destruct (mux_animated (r0 :: tl)) eqn:Han.
+    - injection Hclose as <-.
+      assert (Hpb : playback rt_ll rt_ly fx (mkout false false W H (eo_loop op) (r0 :: tl))
+                    = played (r0 :: tl)) by reflexivity.
+      assert (Hcol : collapse_by pi (played (r0 :: tl)) = collapse_by pi R)
+        by (unfold collapse_by; f_equal; exact Hshow).
+      constructor; cbn [out_W out_H out_loop out_still].
+      + split; reflexivity.
+      + rewrite Hpb, Hcol. reflexivity.
+      + intros _. rewrite Hpb. repeat split. exact Hcol.
+    - injection Hclose as <-.
+      assert (Htl : tl = []).
+      { destruct tl as [|a tl']; [reflexivity|]. unfold mux_animated in Han. cbn [length] in Han.
+        apply orb_false_iff in Han as [Han _]. lia. }
+      subst tl.
+      assert (Hr0 : rec_ok r0) by (inversion Hok; assumption).
+      assert (Hd0 : m_dur r0 = 0).
+      { unfold mux_animated in Han. cbn [existsb length] in Han.
+        destruct Hr0 as (_ & _ & _ & _ & _ & _ & _ & _ & Hd). lia. }
+      assert (Hxy : m_x r0 = 0 /\ m_y r0 = 0).
+      { cbn [forallb] in Hval. unfold rec_valid in Hval. cbn [orb] in Hval. lia. }
+      destruct Hxy as [Hx0 Hy0].
+      assert (Hdims : has_meta = true \/ (iw (m_img r0) = W /\ ih (m_img r0) = H)).
+      { destruct (Hcanvas r0 eq_refl) as [Hm|[Hd|Hd]]; [left; exact Hm|lia|right; exact Hd]. }
+      eapply (single_show false (mkmrec 0 0 (m_img r0) (m_lossy r0) false false 0) _ (cdec [] r0) r0);
+        try reflexivity.
+      + cbn [out_W]. destruct Hdims as [->|[-> _]]; [reflexivity|destruct has_meta; reflexivity].
+      + cbn [out_H]. destruct Hdims as [->|[_ ->]]; [reflexivity|destruct has_meta; reflexivity].
+      + apply cdec_length.
+      + apply (still_sound false r0 (cdec [] r0) Hr0 Hx0 Hy0). intros x y Hx Hy. reflexivity.
+      + apply psim_refl.
+      + rewrite <- Hshow. unfold played at 1. unfold collapse_rev_by, proj_show, played, frames_of, spec_run.
+        cbn [map spec_go combine fold_left push fst snd]. reflexivity.
+  Qed.
+
+  Theorem generic_mixed_roundtrip oracle fails has_meta simple st0 ops stf acc out :
+    e_W st0 = W -> e_H st0 = H -> e_opts st0 = op -> e_recs st0 = [] -> e_fcount st0 = 0 ->
+    e_prev st0 = None ->
+    Forall wf_op ops ->
+    run_ops fx maxf oracle fails st0 ops = (stf, acc) ->
+    (forall r, acc = [ORaw r] -> has_meta = true \/ 0 < m_dur r \/
+                                 (iw (m_img r) = W /\ ih (m_img r) = H)) ->
+    close has_meta simple stf = Some out ->
+    same_show_by pi W H (eo_loop op) out (playback rt_ll rt_ly fx out) (ref_show W H s0 acc).
+  Proof.
+    intros HW0 HH0 Hop0 Hrecs0 Hfc0 Hprev0 Hwf Hrun Hcanvas Hclose.
+    assert (HM0 : minv [] st0).
+    { left. split; [|split].
+      - constructor; try assumption.
+        + rewrite Hrecs0. split; [constructor|]. split; [split; [apply psim_refl|reflexivity]|reflexivity].
+        + rewrite Hrecs0, Hfc0. reflexivity.
+      - reflexivity.
+      - rewrite Hrecs0. discriminate. }
+    pose proof (run_ops_minv oracle fails ops st0 [] stf acc HM0 Hwf Hrun) as HM. cbn [app] in HM.
+    destruct HM as [(Hu & He0 & He1)|[(init & last & im & ins' & d & b & Hi & Hrecs & _) _]].
+    - apply (close_u has_meta simple stf _ _ out Hu); [|exact Hclose].
+      intros r0 Hr0. apply Hcanvas. apply He1. exact Hr0.
+    - exact (close_sound has_meta simple stf _ out init last im ins' d b Hi Hrecs Hclose).
   Qed.
 End Generic.
